@@ -88,9 +88,19 @@ PROPS["C04"] = {
     "trusted": ARITH_TRUSTED,
 }
 PROPS["C09"] = {
-    "tasks": lambda tier: VP(OPS_KEY, 10),
+    "tasks": lambda tier: VP(OPS_KEY, 10) + VP(AR + "._DoOperation#operators", 12),
     "level": "proof",
-    "level_text": "For a Scalar x (simple, derived or empty quantity; thorough adds two-entry derived) and a plain int/float (thorough: numpy float) k, each of k*x, x*k, x/k, x//k, x+k, k+x, x-k, k-x, evaluated through Python's binary-operator dispatch on the real __op__/__rop__/_DoOperation bodies, is proved to return a new Scalar holding x's own quantity object and the operation applied to the value; k/x and k//x are proved to go through the database division with the empty quantity (reciprocal exponents, value k/x). Array operands and numpy-array k are not yet under contract.",
-    "level_note": "Scalar only (Array/numpy dispatch not yet claimed); floats are reals; IsNumber's isinstance test on numpy.number modelled by the interpreter's type table",
+    "level_text": "For a Scalar x (simple, derived or empty quantity; thorough adds two-entry derived) and a plain int/float (thorough: numpy float) k, each of k*x, x*k, x/k, x//k, x+k, k+x, x-k, k-x, evaluated through Python's binary-operator dispatch on the real __op__/__rop__/_DoOperation bodies, is proved to return a new Scalar holding x's own quantity object and the operation applied to the value; k/x and k//x are proved to go through the database division with the empty quantity (reciprocal exponents, value k/x). The same is proved for list-, tuple- and numpy-backed Arrays of unbounded length with an int/float k on either side (Array._DoOperation with the database operations' contracts, see C10). A numpy array or numpy scalar k on the LEFT of an Array is decided by numpy's dispatch, which is outside the verified code (not claimed).",
+    "level_note": "numpy-left operands (numpy scalar/ndarray OP Array) not claimed; numpy division excluded; floats are reals; IsNumber's isinstance test on numpy.number modelled by the interpreter's type table",
     "trusted": ARITH_TRUSTED,
+}
+
+AR = "barril.units._array:Array"
+AOPS_KEY = AR + "._DoOperation#operators"
+PROPS["C10"] = {
+    "tasks": lambda tier: VP(AOPS_KEY, 12),
+    "level": "proof",
+    "level_text": "Array OP Array and Array OP number (OP in + - * / //) for list-, tuple- and numpy-backed values of symbolic, unbounded length: Array._DoOperation and _ValueGenerator are executed from their real AST, the per-element loop by a map rule (generic index, quantified reading of element-dependent raises), the database operations by their contracts (proved in C03/C04). Proved: the result is a new Array whose quantity is the one the Scalar operation yields, whose element j is F(a_j, b_j) for the same value function F the Scalar contract uses, whose container kind is tuple iff all iterated operands are tuples (ndarray if any operand is), independent of the operands' container kinds; empty operands give an empty result; operands of different lengths raise ValueError; different dimensions raise InvalidOperationError. Array.FromScalars and unit conversion of Arrays are not yet under contract.",
+    "level_note": "operand quantities: simple x simple (thorough adds derived shapes); numpy division excluded (zero elements give inf/nan, outside the real model); numpy elementwise arithmetic assumed (A5); floats are reals",
+    "trusted": ARITH_TRUSTED + ["numpy: arithmetic operators act elementwise on ndarrays of equal length and raise ValueError otherwise (A5)", "callee contracts used: UnitDatabase.Sum/Subtract/Multiply/Divide/FloorDivide (verified against their bodies in C03/C04)"],
 }
